@@ -208,6 +208,71 @@ def _case(draw, measure, symbolic=True, max_depth=3):
     return r
 
 
+def _xg(i, fam="XPow"):
+    return {"k": "g", "g": [fam, {"e": 1.0, "s": 0.0}], "w": [i], "sym": None}
+
+
+@st.composite
+def _shadow_level(draw, n, d, name, out, visible):
+    """One level of a chain of nested sub-circuits in which the SAME key name may be measured at every level and
+    controls on it appear before / inside / after the nested block (mostly basis-preserving gates, so that the scopes hold
+    different definite values and few outcome branches exist)."""
+    body = []
+
+    def flip():
+        for i in range(n):
+            c = draw(st.integers(0, 11))
+            if c <= 3:
+                body.append(_xg(i))
+            elif c == 4:
+                body.append(_xg(i, "HPow"))
+
+    def ctrl():
+        t = draw(st.integers(0, n - 1))
+        body.append({"k": "cg", "g": ["XPow", {"e": 1.0, "s": 0.0}], "w": [t], "conds": [{"t": "key", "key": name, "index": -1}],
+                     "form": draw(st.sampled_from(["ccop", "ccop", "if"]))})
+        body.append({"k": "m", "key": out, "w": [t], "inv": []})
+
+    flip()
+    local = d == 0 or draw(st.integers(0, 2)) > 0
+    if local:
+        body.append({"k": "m", "key": name, "w": [draw(st.integers(0, n - 1))], "inv": [True] if draw(st.integers(0, 3)) == 0 else []})
+    if d == 0:
+        ctrl()
+    else:
+        if (local or visible) and draw(st.booleans()):
+            ctrl()
+        body.append(draw(_shadow_level(n, d - 1, name, out, visible or local)))
+        if (local or visible) and draw(st.booleans()):
+            flip()
+            ctrl()
+    return {"k": "sub", "body": body, "reps": draw(st.sampled_from([1, 1, 2])),
+            "ids": draw(st.sampled_from([None, "default", "default", "custom"])),
+            "perm": list(draw(st.permutations(list(range(n))))) if draw(st.integers(0, 3)) == 0 else list(range(n)),
+            "kmap": {}, "ppath": draw(st.sampled_from([[], [], ["p"]])), "params": {},
+            "build": draw(st.sampled_from(["ctor", "ctor", "methods"])), "frozen_tag": draw(st.booleans())}
+
+
+@st.composite
+def _shadow_case(draw):
+    n = draw(st.integers(2, 3))
+    name = draw(st.sampled_from(["a", "m"]))
+    out = "m" if name == "a" else "a"
+    items = []
+    top = draw(st.booleans())
+    if top:
+        if draw(st.booleans()):
+            items.append(_xg(draw(st.integers(0, n - 1))))
+        items.append({"k": "m", "key": name, "w": [draw(st.integers(0, n - 1))], "inv": []})
+    items.append(draw(_shadow_level(n, draw(st.sampled_from([1, 2, 2])), name, out, top)))
+    return {"n": n, "names": list(draw(st.permutations(list(range(n + 2)))))[:n], "items": items,
+            "top_params": {s: 0.5 for s in SYMS}, "sim": draw(st.sampled_from(["sv", "sv_nosplit", "dm"])), "shape": "shadow"}
+
+
+def _keys_case():
+    return st.integers(0, 3).flatmap(lambda k: _shadow_case() if k == 0 else _case(measure=True, symbolic=False, max_depth=2))
+
+
 # ------------------------------------------------------------------------------------------------ cirq side
 
 
@@ -463,6 +528,7 @@ def _features(r):
 
     walk(r["items"], 0)
     f["depth"] = depth[0]
+    f["shadow_chain"] = r.get("shape") == "shadow"
     f["nontrivial"] = depth[0] >= 1 and sum(bool(f[k]) for k in ("reps", "qmap", "kmap", "inner_cond", "params", "ids")) >= 2
     return f
 
@@ -833,7 +899,7 @@ SUBCHECKS = [
              frozen_keys=("names", "perm", "n")),
     SubCheck("unroll_greedy_earliest", _case(measure=False), oracle_unroll_greedy_earliest, quick=60, thorough=2000, shards_quick=1, shards_thorough=2,
              frozen_keys=("names", "perm", "n")),
-    SubCheck("keys_distribution", _case(measure=True, symbolic=False, max_depth=2), oracle_keys, quick=2400, thorough=30000, shards_quick=8,
+    SubCheck("keys_distribution", _keys_case(), oracle_keys, quick=2400, thorough=30000, shards_quick=8,
              frozen_keys=("names", "perm", "n")),
     SubCheck("repeat_until", _until_case(), oracle_until, quick=300, thorough=5000, shards_quick=2),
 ]
